@@ -67,6 +67,7 @@ type Options struct {
 	Trace          *Trace
 	Mon            *Monitor
 	NoSite         bool // do not symbolise the rejecting call site (saves ~50us)
+	LumpBits       bool // dishonest gnark bit-decomposition hint: digits := (value, 0, 0, ...)
 }
 
 type Result struct {
@@ -80,6 +81,7 @@ type Result struct {
 	NBinary       int // calls of API.ToBinary
 	NCommit       int // calls of Committer.Commit
 	Injected      []Injection
+	LumpedBits    int // gnark bit-decomposition hints answered dishonestly (LumpBits)
 	TolerantHints int // honest hint functions that panicked/erred and were replaced by a tolerant copy
 }
 
